@@ -157,9 +157,14 @@ pub fn cases(prop: &str, tier: Tier, seed: u64) -> Vec<CaseDesc> {
             // hand-written shapes, among them modules without any function body
             base.extend(corpus::gcedge_specs());
             // function entries beyond 32 KiB and 64 KiB (buffer growth and reuse in the per-function work)
+            // many functions of exactly the same size
+            base.push("lebe:300".to_string());
             base.push("lebb:6:60:70000".to_string());
             base.push("lebb:3:20:40000".to_string());
             if !q {
+                // more than 2^16 functions, many of equal size
+                base.push("leb:65600:60:2".to_string());
+                base.push("lebe:65600".to_string());
                 base.push("lebb:24:300:70000".to_string());
                 base.push("lebb:2:10:2200000".to_string());
             }
@@ -183,7 +188,7 @@ pub fn cases(prop: &str, tier: Tier, seed: u64) -> Vec<CaseDesc> {
             bases.push("gcedge:elem_funcref_expr_global_get.wat".to_string());
             let mut i = 0usize;
             for b in &bases {
-                for (ver, mode) in [(4, "f"), (5, "f"), (4, "s"), (5, "s"), (5, "z"), (4, "a"), (5, "a"), (4, "n"), (5, "n")] {
+                for (ver, mode) in [(4, "f"), (5, "f"), (4, "s"), (5, "s"), (5, "z"), (4, "a"), (5, "a"), (4, "n"), (5, "n"), (4, "t"), (5, "t")] {
                     let spec = format!("dwarf:{}:{}:{}", ver, mode, b);
                     let scn = match i % 5 { 0 => "rt:emit;cfg=27", 1 => "rt:emit,gc;cfg=27", 2 => "rt:emit,ins;cfg=27", 3 => "rt:emit,addfn;cfg=27", _ => "rt:emit,reedit;cfg=27" };
                     i += 1;
@@ -234,6 +239,9 @@ pub fn cases(prop: &str, tier: Tier, seed: u64) -> Vec<CaseDesc> {
             for (kind, d) in [("block", 10), ("block", 100_000), ("loop", 100_000), ("if", 100_000), ("mixed", 100_000), ("blockbr", 50_000)] {
                 out.push(CaseDesc { spec: format!("deep:{}:{}", kind, d), scenario: "visit".into() });
             }
+            // nested constructs at positions beyond 2^16 of one flat sequence
+            out.push(CaseDesc { spec: "wide:33000".into(), scenario: "visit".into() });
+            out.push(CaseDesc { spec: "wide:70000".into(), scenario: "visit".into() });
             if !q {
                 out.push(CaseDesc { spec: "deep:mixed:1000000".into(), scenario: "visit".into() });
             }
@@ -246,6 +254,13 @@ pub fn cases(prop: &str, tier: Tier, seed: u64) -> Vec<CaseDesc> {
             out.extend(with_scenario(disk_corpus(false), "rt:emit,gc,onparse"));
             out.extend(with_scenario(g("names", 4000, 150_000), "rt:emit,gc,onparse"));
             out.extend(with_scenario(g("customs", 500, 20_000), "rt:emit,gc"));
+            if !q {
+                // function indices beyond 2^16 in the name section
+                out.push(CaseDesc { spec: "lebn:65540".to_string(), scenario: "rt:emit,gc".to_string() });
+            }
+            // imports added through the API in front of named local entities
+            out.extend(with_scenario(crate::gen::gen_specs("names", seed ^ 0xadd1, if q { 1200 } else { 40_000 }), "rt:addimp"));
+            out.extend(with_scenario(corpus::gcedge_specs(), "rt:addimp"));
             // synthetic names switched on: the names the input gives must still win
             out.extend(with_scenario(crate::gen::gen_specs("names", seed ^ 0x5e7, if q { 1500 } else { 60_000 }), "rt:emit,gc;cfg=30"));
             out.extend(with_scenario(disk_corpus(false), "rt:emit,gc;cfg=30"));
@@ -290,6 +305,7 @@ pub fn cases(prop: &str, tier: Tier, seed: u64) -> Vec<CaseDesc> {
             // every accepted operator alone in an otherwise MVP module, then the full census
             out.extend(with_scenario(crate::census::op_alone_specs(), "rt:emit"));
             out.extend(with_scenario(crate::census::op_census_specs(), "rt:emit"));
+            out.extend(with_scenario(crate::census::attr_specs(), "rt:emit"));
             out.extend(with_scenario(disk_corpus(false), "rt:emit"));
             for (p, nq, nt) in [("mvp", 1200, 40_000), ("full", 600, 20_000), ("stable", 400, 20_000)] {
                 out.extend(with_scenario(g(p, nq, nt), "rt:emit"));
